@@ -34,6 +34,8 @@ pub struct TrMsg {
     pub orig: Option<Bytes>,
     /// false when the message was suppressed (drop fault / swallowed by a closed endpoint)
     pub enqueued: bool,
+    /// global order number among all completed channel operations
+    pub ord: u64,
 }
 
 #[derive(Clone, Debug)]
@@ -44,6 +46,8 @@ pub struct RecvRec {
     pub phase: String,
     /// transcript index of the message consumed
     pub tr: usize,
+    /// global order number among all completed channel operations
+    pub ord: u64,
 }
 
 #[derive(Clone, Debug)]
@@ -177,6 +181,7 @@ pub struct Net {
     unbounded_from: Option<usize>,
     mut_rng: ChaCha8Rng,
     pub first_fault_at: Option<usize>,
+    opctr: u64,
 }
 
 impl Net {
@@ -260,6 +265,7 @@ impl Net {
             *self.fired.entry(name).or_insert(0) += 1;
         }
         let tr = self.transcript.len();
+        self.opctr += 1;
         self.transcript.push(TrMsg {
             seq: self.step,
             from,
@@ -269,6 +275,7 @@ impl Net {
             data,
             orig,
             enqueued: enq,
+            ord: self.opctr,
         });
         if enq {
             if swap {
@@ -412,6 +419,8 @@ impl Future for SendFut<'_> {
             net.links[li].sent += 1;
             net.sent_total[me] += 1;
             let step = net.step;
+            net.opctr += 1;
+            let ord = net.opctr;
             net.transcript.push(TrMsg {
                 seq: step,
                 from: me,
@@ -421,6 +430,7 @@ impl Future for SendFut<'_> {
                 data,
                 orig: None,
                 enqueued: false,
+                ord,
             });
             return if net.send_to_closed_errs {
                 Poll::Ready(Err("peer closed".into()))
@@ -502,12 +512,15 @@ impl Future for RecvFut<'_> {
             }
             let step = net.step;
             let phase = self.phase.clone();
+            net.opctr += 1;
+            let ord = net.opctr;
             net.recvs.push(RecvRec {
                 seq: step,
                 party: me,
                 from,
                 phase,
                 tr,
+                ord,
             });
             net.cur_ops.push(Op::Recv { from });
             let data = net.transcript[tr].data.as_ref().clone();
@@ -1002,6 +1015,7 @@ pub fn run(cfg: &RunCfg, task: Arc<dyn Task>) -> RunResult {
         unbounded_from: scripted,
         mut_rng: entropy::rng(cfg.seed, 0x3a7, 0),
         first_fault_at: None,
+        opctr: 0,
     }));
 
     // party threads
